@@ -11,6 +11,8 @@ injected semantic error.  Pipeline per (module, option set):
       re-read as C++ (g++ -fsyntax-only);
   (c) harness/dumpdescr.c linked against the emitted archive -> descriptor table
       as Gallina terms -> Gen_Descr_<n>.v -> coqc (obligation wf_descr_all = true).
+Round 2: a module may consist of several input files (mod["files"], command-line order); fileset_oracle() evaluates the
+emitted file set, site_types() reads the specialization index of every instantiation site out of the generated headers.
 """
 import os, re, subprocess, shutil, json, hashlib
 from concurrent.futures import ThreadPoolExecutor
